@@ -10,7 +10,7 @@ mod refm;
 mod scen;
 
 use kit::json::J;
-use kit::sim::{run_batch, run_trace, BatchCfg, Op, Scenario, Stats};
+use kit::sim::{run_batch, BatchCfg, Op, Scenario, Stats};
 use std::collections::BTreeMap;
 
 fn arg<'a>(args: &'a BTreeMap<String, String>, k: &str, d: &'a str) -> &'a str {
@@ -114,17 +114,41 @@ fn do_run<S: Scenario>(s: &S, args: &BTreeMap<String, String>) -> i32 {
     0
 }
 
+/// print the generated trace of one run (setup + ops) without judging it
+fn do_trace<S: Scenario>(s: &S, args: &BTreeMap<String, String>) -> i32 {
+    let seed: u64 = arg(args, "seed", "1").parse().expect("--seed");
+    let r: u64 = arg(args, "start", "0").parse().expect("--start");
+    let max_ops: usize = arg(args, "max-ops", "48").parse().expect("--max-ops");
+    let rs = kit::rng::run_seed(seed, s.name().split('@').next().unwrap(), r);
+    let mut stats = Stats::default();
+    let out = kit::sim::run_generated(s, arg(args, "mix", ""), rs, max_ops, &mut stats);
+    let j = J::obj()
+        .set("scenario", J::str(s.name()))
+        .set("mix", J::str(arg(args, "mix", "")))
+        .set("meta", meta(args))
+        .set("verif_seed", J::U(seed as u128))
+        .set("run_index", J::U(r as u128))
+        .set("run_seed", J::U(rs as u128))
+        .set("setup", out.setup.clone())
+        .set("ops", J::A(out.ops.iter().map(|o| o.to_json()).collect()))
+        .set("digest", J::S(format!("{:016x}", out.digest)));
+    println!("{}", j.to_string());
+    0
+}
+
 fn do_replay<S: Scenario>(s: &S, j: &J) -> i32 {
     let setup = j.get("setup").cloned().unwrap_or(J::obj());
     let ops: Vec<Op> = j.arr("ops").iter().filter_map(Op::from_json).collect();
     let mut stats = Stats::default();
-    match run_trace(s, &setup, &ops, &mut stats) {
+    let (v, digest) = kit::sim::run_trace_digest(s, &setup, &ops, &mut stats);
+    let d = J::S(format!("{:016x}", digest));
+    match v {
         Some((v, at)) => {
-            println!("{}", J::obj().set("reproduced", J::Bool(true)).set("violation", v.to_json().set("at_op", J::U(at as u128))).to_string());
+            println!("{}", J::obj().set("reproduced", J::Bool(true)).set("digest", d).set("violation", v.to_json().set("at_op", J::U(at as u128))).to_string());
             1
         }
         None => {
-            println!("{}", J::obj().set("reproduced", J::Bool(false)).to_string());
+            println!("{}", J::obj().set("reproduced", J::Bool(false)).set("digest", d).to_string());
             0
         }
     }
@@ -134,6 +158,11 @@ macro_rules! scenarios {
     ($name:expr, $f:ident, $($arg:expr),*) => {
         match $name {
             "chacha_stream" => $f(&scen::s1_chacha_stream::S1, $($arg),*),
+            "chacha_block" => $f(&scen::s2_chacha_block::S2, $($arg),*),
+            "hash_stream" => $f(&scen::s4_hash_stream::S4, $($arg),*),
+            "chacha_stream@hosts" => $f(&scen::s3_hosts::Hosts { inner: scen::s1_chacha_stream::S1, name: "chacha_stream@hosts" }, $($arg),*),
+            "chacha_block@hosts" => $f(&scen::s3_hosts::Hosts { inner: scen::s2_chacha_block::S2, name: "chacha_block@hosts" }, $($arg),*),
+            "hash_stream@hosts" => $f(&scen::s3_hosts::Hosts { inner: scen::s4_hash_stream::S4, name: "hash_stream@hosts" }, $($arg),*),
             other => {
                 eprintln!("unknown scenario {}", other);
                 2
@@ -179,6 +208,10 @@ fn main() {
         "run" => {
             let name = arg(&args, "scenario", "").to_string();
             scenarios!(name.as_str(), do_run, &args)
+        }
+        "trace" => {
+            let name = arg(&args, "scenario", "").to_string();
+            scenarios!(name.as_str(), do_trace, &args)
         }
         "replay" => {
             let text = std::fs::read_to_string(arg(&args, "file", "")).expect("read replay file");
